@@ -182,7 +182,8 @@ def groups(sets, per):
     return out
 
 
-def emit(pid, quick, thorough, per, cases, maxlen, rule, assumptions, fuzz_every, extra_flags, shrink_budget):
+def emit(pid, quick, thorough, per, cases, maxlen, rule, assumptions, fuzz_every, extra_flags, shrink_budget,
+         extra_groups=None):
     qg = groups(quick, per)
     rest = [s for s in thorough if s not in quick]
     tg = groups(rest, per)
@@ -205,16 +206,71 @@ def emit(pid, quick, thorough, per, cases, maxlen, rule, assumptions, fuzz_every
                 t["fuzz"] = {"runs": 60000, "max_seconds": 300}
             targets.append(t)
             n += 1
+    for num, ss in (extra_groups or []):
+        inc.append("#if CFG == %d" % num)
+        inc.append("using Sets = std::tuple<\n    %s>;" % ",\n    ".join(cpp(s) for s in ss))
+        inc.append("#endif")
     inc.append("}  // namespace pmh")
     os.makedirs(os.path.join(ROOT, "props", pid), exist_ok=True)
     with open(os.path.join(ROOT, "props", pid, "configs.inc"), "w") as f:
         f.write("\n".join(inc) + "\n")
     prop = {"id": pid, "rule": rule, "assumptions": assumptions, "tolerances": "", "shrink_budget": shrink_budget,
             "targets": targets}
+    try:  # keys added by the integrator (registration, level texts, ...) are kept
+        old = json.load(open(os.path.join(ROOT, "props", pid, "prop.json")))
+        for k, v in old.items():
+            if k not in prop:
+                prop[k] = v
+    except (OSError, ValueError):
+        pass
     with open(os.path.join(ROOT, "props", pid, "prop.json"), "w") as f:
         json.dump(prop, f, indent=1)
         f.write("\n")
     return len(qg), len(tg)
+
+
+# C15 (copies / moves / swaps of the persistence flavours): props/C05/main.cpp with -DPMH_COPY_OPS -DCFG=100+k
+LIST_, SET_, HEAP_, VECTOR_, NAIVE_, SMALL_, UNORD_, ILIST_, ISET_ = range(9)
+C15_GROUPS = [
+    ("mat_pers_bnd", [(ISET_, "B0", 1, 0, "0", 1, 0, 0), (VECTOR_, "B0", 0, 0, "1", 1, 0, 1)]),
+    ("mat_pers_bnd_map", [(LIST_, "B0", 1, 2, "2", 1, 1, 0), (HEAP_, "B0", 0, 0, "0", 1, 1, 0)]),
+    ("mat_pers_ru_rep", [(ISET_, "R0", 1, 0, "0", 1, 0, 0), (NAIVE_, "R0", 0, 1, "0", 1, 0, 0)]),
+    ("mat_pers_ru_rep_rows", [(LIST_, "R0", 1, 0, "1", 1, 1, 0), (UNORD_, "R0", 0, 0, "2r", 1, 0, 1)]),
+    ("mat_pers_ru_vine", [(VECTOR_, "R1", 1, 0, "0", 1, 0, 0), (HEAP_, "R2", 1, 1, "0", 1, 1, 0)]),
+    ("mat_pers_chain", [(ISET_, "C0", 1, 0, "0", 1, 0, 0), (VECTOR_, "C0", 0, 1, "0", 1, 0, 1)]),
+    ("mat_pers_chain_rep", [(LIST_, "C1", 1, 0, "1", 1, 0, 0), (NAIVE_, "C1", 0, 2, "2", 1, 1, 0)]),
+    ("mat_pers_chain_vine", [(UNORD_, "C2", 1, 0, "0", 1, 1, 0), (HEAP_, "C3", 1, 1, "0", 1, 1, 0)]),
+]
+
+
+def update_c15():
+    """(re)writes the mat_pers_* targets of props/C15/prop.json, everything else there is kept"""
+    fn = os.path.join(ROOT, "props", "C15", "prop.json")
+    prop = json.load(open(fn))
+    prop["targets"] = [t for t in prop["targets"] if not t["name"].startswith("mat_pers_")]
+    for k, (name, ss) in enumerate(C15_GROUPS):
+        for x in ss:
+            assert valid(x), x
+        prop["targets"].append({
+            "name": name, "sources": ["props/C05/main.cpp"], "flags": ["-DPMH_COPY_OPS", "-DCFG=%d" % (100 + k)],
+            "cases": {"quick": 2500, "thorough": 50000}, "maxlen": 256, "streams": 4, "corpus": "mat_pers",
+            "class_group": "mat_pers", "exclude_from": "C05",
+            "note": "Matrix<persistence options> copies / moves / swaps (C05 driver with -DPMH_COPY_OPS): "
+                    + "; ".join(label(x) for x in ss)})
+    add = ("Persistence flavours (targets mat_pers_*, 16 option sets: R-only, RU with representative cycles, RU with "
+           "vine updates, chain, chain with cycles, chain with vine updates; driver shared with C05): a pool of up to 3 "
+           "(Matrix, filtered complex) pairs; insert_boundary / remove_last batches interleaved with copy construction, "
+           "copy assignment (self, onto non-empty or moved-from), move construction / assignment, the friend swap, "
+           "destruction; copies and moved-to objects are compared with their source (barcode, representative cycles), "
+           "moved-from objects must report 0 columns and are only assigned to or destroyed, and after every step every "
+           "live matrix passes the full C05 check (barcode vs ref::reduce, R reduced, factorisation, chain identities, "
+           "Z2 cycles closed) against its own model; non-trivial = a copy relation created from an object with >= 5 "
+           "cells and one of the two changed before destruction.")
+    if "Persistence flavours (targets mat_pers_*" not in prop["rule"]:
+        prop["rule"] = prop["rule"].replace(" Thread part (thorough)", " " + add + " Thread part (thorough)")
+    with open(fn, "w") as f:
+        json.dump(prop, f, indent=1)
+        f.write("\n")
 
 
 def main():
@@ -236,7 +292,9 @@ def main():
         "remove_last (documented restriction)",
         "the exposed second factor of the RU flavour is accepted in any of the conventions B = R*W^T, B = R*W, R = B*W "
         "(the documentation does not fix one; the code uses the first for Z2 and the third for Zp)"]
-    nq, nt = emit("C05", quick, thorough, 4, (10000, 80000), 320, rule05, assumptions, 6, [], 1500)
+    nq, nt = emit("C05", quick, thorough, 4, (10000, 80000), 320, rule05, assumptions, 6, [], 1500,
+                  [(100 + k, g[1]) for k, g in enumerate(C15_GROUPS)])
+    update_c15()
     print("C05: %d quick sets in %d targets, %d more thorough sets in %d targets" % (len(quick), nq,
                                                                                  len(thorough) - len(quick), nt))
     # C08: the sets with representative cycles; RU Zp with identifier indexing cannot expose coefficients -> dropped
